@@ -3,7 +3,7 @@ From Dastard Require Import Common.ZX Common.CaseLib C15.Model C15.Spec.
 
 Inductive item :=
 | IDecode (bs : list Z) (o : dobs)
-| IBuild (v src seq off : Z) (ops : list (bop * bret)) (num denom : Z) (b : res bobs).
+| IBuild (v src seq off : Z) (h : list (hop * hres)).
 Record case := { c_items : list item }.
 
 Definition res_eqb {A} (eqb : A -> A -> bool) (a b : res A) : bool :=
@@ -41,42 +41,72 @@ Definition pret_of (o : dobs) : list (Z * Z) :=
 Definition bret_eqb (a b : bret) : bool :=
   match a, b with BRNil, BRNil | BRErr, BRErr | BRPanic, BRPanic => true | _, _ => false end.
 
-(* the model's view of a construction; the decoding probes are those the harness used *)
-Definition model_build (v src seq off : Z) (ops : list bop) (num denom : Z)
-    (reads : list Z) (pret : list (Z * Z)) (dreads : list Z) (dpret : list (Z * Z)) : res bobs * list bret :=
-  let (r, rets) := build (new_packet v src seq off) ops in
-  match r with
-  | Panic => (Panic, rets)
-  | Ok p =>
-      (* the harness cuts a Bytes() output longer than 16384 bytes (no datagram is that long) *)
-      let bytes := match bytes_of num denom p with
-                   | Ok bs => Ok (if zlen bs >? 16384 then zfirstn 16384 bs else bs)
-                   | Panic => Panic
-                   end in
-      (Ok {| b_acc := observe_packet p reads pret; b_bytes := bytes;
-             b_dec := match bytes with
-                      | Ok bs => observe_decode bs dreads dpret
-                      | Panic => ODPanic
-                      end |}, rets)
+(* the model's view of one encoding of packet [p]; the probes are those the harness used *)
+Definition probes_of (b : res bobs) : list Z * list (Z * Z) * list Z * list (Z * Z) :=
+  match b with
+  | Ok b => (map fst (a_reads (b_acc b)), map fst (a_pretend (b_acc b)), reads_of (b_dec b), pret_of (b_dec b))
+  | Panic => ([], [], [], [])
+  end.
+
+Definition model_enc (p : packet) (num denom : Z)
+    (reads : list Z) (pret : list (Z * Z)) (dreads : list Z) (dpret : list (Z * Z)) : res bobs :=
+  (* the harness cuts a Bytes() output longer than 16384 bytes (no datagram is that long) *)
+  let bytes := match bytes_of num denom p with
+               | Ok bs => Ok (if zlen bs >? 16384 then zfirstn 16384 bs else bs)
+               | Panic => Panic
+               end in
+  Ok {| b_acc := observe_packet p reads pret; b_bytes := bytes;
+        b_dec := match bytes with
+                 | Ok bs => observe_decode bs dreads dpret
+                 | Panic => ODPanic
+                 end |}.
+
+(* the model's results of a history.  [probe] gives, for the i-th step, the probes and oracle words the
+   harness used there.  Encodings do not change the state: the model is stateless per encoding.
+   After a panicking constructor call the harness stops issuing calls: so does the model. *)
+Definition oracle_of (x : hres) : Z * Z * res bobs :=
+  match x with
+  | HEnc num denom b => (num, denom, b)
+  | HRet _ => (0, 0, Panic)          (* malformed observation: never equal to the model's *)
+  end.
+
+Fixpoint run_hist (p : packet) (h : list (hop * hres)) : list hres :=
+  match h with
+  | [] => []
+  | (HOp o, _) :: rest =>
+      match bstep p o with
+      | Panic => [HRet BRPanic]
+      | Ok (p', e) => HRet (if e then BRErr else BRNil) :: run_hist p' rest
+      end
+  | (HEncode, x) :: rest =>
+      let '(num, denom, b) := oracle_of x in
+      let '(reads, pret, dreads, dpret) := probes_of b in
+      HEnc num denom (model_enc p num denom reads pret dreads dpret) :: run_hist p rest
+  | (HFiller s n, x) :: rest =>
+      let '(num, denom, b) := oracle_of x in
+      let '(reads, pret, dreads, dpret) := probes_of b in
+      HEnc num denom (match make_pretend p s n with
+                      | Ok q => model_enc q num denom reads pret dreads dpret
+                      | Panic => Panic
+                      end) :: run_hist p rest
   end.
 
 Definition bobs_eqb (a b : bobs) : bool :=
   aobs_eqb (b_acc a) (b_acc b) && res_eqb zlist_eqb (b_bytes a) (b_bytes b) && dobs_eqb (b_dec a) (b_dec b).
 
+Definition hres_eqb (a b : hres) : bool :=
+  match a, b with
+  | HRet x, HRet y => bret_eqb x y
+  | HEnc n1 d1 x, HEnc n2 d2 y => (n1 =? n2) && (d1 =? d2) && res_eqb bobs_eqb x y
+  | _, _ => false
+  end.
+
 Definition item_code (it : item) : Z :=
   match it with
   | IDecode bs o =>
       verdict_code (dobs_eqb o (observe_decode bs (reads_of o) (pret_of o))) (decode_check bs o)
-  | IBuild v src seq off ops num denom b =>
-      let rets := map snd ops in
-      let '(reads, pret, dreads, dpret) :=
-        match b with
-        | Ok b => (map fst (a_reads (b_acc b)), map fst (a_pretend (b_acc b)), reads_of (b_dec b), pret_of (b_dec b))
-        | Panic => ([], [], [], [])
-        end in
-      let '(mb, mrets) := model_build v src seq off (map fst ops) num denom reads pret dreads dpret in
-      (* after a panic the harness stops issuing calls: the model's return list ends there too *)
-      verdict_code (res_eqb bobs_eqb b mb && list_eqb bret_eqb rets mrets) (build_check rets b)
+  | IBuild v src seq off h =>
+      verdict_code (list_eqb hres_eqb (map snd h) (run_hist (new_packet v src seq off) h)) (build_check h)
   end.
 
 (* (code of the first item that is not 0, its index) *)
